@@ -141,7 +141,13 @@ func genSysHistory(rng *proto.Rng) sysIn {
 		case 4:
 			run.FailMut = []int{rng.Intn(5), 1 + rng.Intn(8)}
 		case 5:
-			run.FailRead = []int{rng.Intn(10)}
+			run.FailInvRead = []int{rng.Intn(7)}
+		case 6:
+			if len(run.Objs) > 0 {
+				run.FailGet = []jid{proto.Pick(rng, run.Objs).ID}
+			} else {
+				run.FailGet = []jid{proto.Pick(rng, sysCatalogue[2:]).ID}
+			}
 		}
 		switch rng.Intn(16) {
 		case 0:
@@ -159,6 +165,13 @@ func genSysHistory(rng *proto.Rng) sysIn {
 			run.EnvDel = []jid{proto.Pick(rng, sysCatalogue[2:]).ID}
 		}
 		in.Runs = append(in.Runs, run)
+		// sometimes repeat the same apply without faults: fixpoint / convergence
+		if run.Kind == "apply" && r < nRuns-1 && rng.Chance(1, 5) {
+			rep := sysRun{Kind: "apply", Objs: run.Objs, Opts: run.Opts, Ctrl: map[string]string{}, Del: map[string]string{}}
+			rep.Opts.Dry = 0
+			in.Runs = append(in.Runs, rep)
+			r++
+		}
 	}
 	return in
 }
